@@ -498,6 +498,9 @@ package dbft
 //@   ensures [C05,C07,C10,C01] @cleanHeight implies(view == 0, !self.blockProcessed && !self.preBlockProcessed && self.lastBlockTimestamp == ts)
 //@   ensures [C05,C02,C06] @freshFromCallbacks implies(view == 0, sametable(self.Validators, gValidators) && self.timePerBlock == gTimePerBlock
 //@        && implies(self.Config.MaxTimePerBlock != nil, self.maxTimePerBlock == gMaxTimePerBlock) && tip() && self.MyIndex == first(self.Config.GetKeyPair(self.Validators)))
+// the block-time bounds in force at a height are the ones the callbacks report when the height is entered (C16: an empty
+// proposal waits for the CURRENT maximum, proposals keep the CURRENT minimum distance)
+//@   ensures [C16] @freshTiming implies(view == 0, self.timePerBlock == gTimePerBlock && implies(self.Config.MaxTimePerBlock != nil, self.maxTimePerBlock == gMaxTimePerBlock))
 //@   ensures [C16,C05] @unsubscribed !self.txSubscriptionOn
 //@   ensures [C15,C05] @base self.lastBlockTimestamp == ts
 //@   ensures [C11] @seenMono implies(view > 0, seenMono())
